@@ -34,7 +34,12 @@ func H_Map() {
 
 	version := vp.Int64("version")
 	db := mptlib.NewStore(store, "c01")
-	t := mptlib.NewTrie(db, version, nil)
+	// an empty trie is opened with a nil root or with an empty, non-nil one (e.g. a decoded "")
+	var root util.Key
+	if vp.Param("emptyroot", 0) == 1 && vp.Choose("rootkind", 2) == 1 {
+		root = util.Key{}
+	}
+	t := mptlib.NewTrie(db, version, root)
 	ref := mptlib.NewRef()
 	mptlib.ApplySeed(t, ref, seed)
 
